@@ -79,7 +79,7 @@ class C18(Check):
             "remove_samples (valid, empty, out of range, duplicated), concatenate / list_concatenate (same / different scaling, empty operand). "
             "Reference model: multiset of (sample, label) per set plus the reference samples revert must restore. A state is the multiset of "
             "the whole pool with the scaling flags; distinct_nontrivial counts distinct states after an operation")
-    expected_probes = ["revert_checked", "override_rescale", "concat_refused", "remove_refused", "degenerate_refused", "shuffle", "ties_in_extremes"]
+    expected_probes = ["revert_checked", "override_rescale", "override_factor_or_shift", "concat_refused", "remove_refused", "degenerate_refused", "shuffle", "ties_in_extremes"]
     assumptions = ["exceptions on degenerate sets (empty, or an operation sklearn refuses) are accepted when the set is left unchanged",
                    "revert is judged on sets whose membership did not change since their first scaling (the statement quantifies over scalings, shifts and factors in between)",
                    "dimensions in which all samples coincide cannot map minimum and maximum onto different range ends: only containment in the range is required there"]
@@ -103,7 +103,7 @@ class C18(Check):
         if r.random() < 0.3:
             labels = [max(l, 0) for l in labels]
         o = stream(rk, "ops")
-        w = {"scale_range": 3, "scale_range_ov": 1, "scale_factor": 2, "shift": 2, "revert": 3, "shuffle": 2, "mbf": 1, "split_labels": 1,
+        w = {"scale_range": 3, "scale_range_ov": 1, "scale_factor": 2, "shift": 2, "scale_factor_ov": 1, "shift_ov": 1, "revert": 3, "shuffle": 2, "mbf": 1, "split_labels": 1,
              "split_pieces": 2, "split_wl": 1, "remove": 3, "remove_bad": 1, "concat": 2, "concat_list": 1}
         for k in list(w):
             w[k] = w[k] * o.choice([0, 1, 1, 2])
@@ -115,9 +115,9 @@ class C18(Check):
             if k in ("scale_range", "scale_range_ov"):
                 lo = o.choice([0.0, -1.0, 0.005, 2.0])
                 ops.append([k, tgt, [lo, lo + o.choice([1.0, 0.99, 3.0, 0.5])]])
-            elif k == "scale_factor":
+            elif k in ("scale_factor", "scale_factor_ov"):
                 ops.append([k, tgt, o.choice([2.0, 0.5, -2.0, -0.25, 3.0, "vec"]), [o.choice([2.0, 0.5, -1.5, 4.0]) for _ in range(dim)]])
-            elif k == "shift":
+            elif k in ("shift", "shift_ov"):
                 ops.append([k, tgt, o.choice([1.0, -0.3, 2.5, "vec"]), [o.choice([1.0, -0.5, 0.25]) for _ in range(dim)]])
             elif k == "split_pieces":
                 ops.append([k, tgt, o.choice([0.0, 0.3, 0.5, 0.7, 0.999, 1.0, 1.5, -0.2])])
@@ -199,7 +199,7 @@ class C18(Check):
             before = self.snapshot(ds)
             ctx.ev(k, i, n)
             try:
-                if k in ("scale_range", "scale_range_ov", "scale_factor", "shift"):
+                if k in ("scale_range", "scale_range_ov", "scale_factor", "shift", "scale_factor_ov", "shift_ov"):
                     self.op_scale(ctx, ds, m, op, dim, sig)
                 elif k == "revert":
                     if m.scaled:
@@ -422,15 +422,19 @@ class C18(Check):
             m.scaled = True
         else:
             v = np.array(op[3], dtype=float) if op[2] == "vec" else float(op[2])
-            if first:
+            override = k.endswith("_ov")
+            if first or override:
+                # an overriding factor / shift turns the current samples into the new "original" ones
+                if override and not first:
+                    ctx.probe("override_factor_or_shift")
                 for r in m.recs:
                     r.ref = r.cur.copy()
                 m.derived = False
-            if k == "scale_factor":
-                ds.scale_factor(v)
+            if k.startswith("scale_factor"):
+                ds.scale_factor(v, override_scaling=override)
                 exp = A * v
             else:
-                ds.shift_value(v)
+                ds.shift_value(v, override_scaling=override)
                 exp = A + v
             X, y = self.snapshot(ds)
             if n and not np.all(np.abs(X - exp) <= 1e-9 * (1 + np.abs(exp))):
